@@ -16,6 +16,8 @@ def run(patch):
     v, u = [], []
     for p in PROPS:
         code, outcomes = check_property(p, "quick", 0, overlay=ov, quiet=True, write=False)
+        if code == 2 and not outcomes:
+            u.append(f"{p}: the whole check is an ANALYSIS-ERROR (index / call graph could not be built on this tree)")
         for o in outcomes:
             if o.verdict == "VIOLATION":
                 v.append(f"{o.rd.id}: {o.findings[0]['key']} :: {o.findings[0]['message'][:140]}")
